@@ -16,7 +16,8 @@ RULE = ("Hypothesis draws two names (concatenations of protocol metacharacters -
         "'=', 'Type=dir;', ' -> ', leading '-', digits, '250 ', '250-', backslash, '%s', '%', combining marks, astral code "
         "points, U+0085, U+2028, control characters - and free Unicode; no '/', NUL, CR, LF, no trailing whitespace, not "
         "'.'/'..', <= 200 UTF-8 bytes), a parent directory at depth 0-2, a backend (memory / PathIO) and a server "
-        "flavour (MLSD or LIST-only). The real aioftp.Client on simnet performs, for a directory named N and a file "
+        "flavour (MLSD or LIST-only); server and client share an encoding (utf-8, or latin-1 / cp1251 / koi8-r / cp1252 "
+        "when it can carry both names). The real aioftp.Client on simnet performs, for a directory named N and a file "
         "named N: make_directory, change_directory, get_current_directory, list of the parent, stat, upload_stream + "
         "download_stream, rename to N2 and back, recursive list, remove. Oracle: the backend tree (read directly) "
         "contains exactly the object under exactly the name after each step, PWD returns exactly parent/N, the listing "
@@ -29,7 +30,7 @@ ASSUMPTIONS = [
 ]
 REPLAY_ATTEMPTS = 2
 
-SPECIAL = ['"', '""', ' ', '  ', ';', '=', 'Type=dir;', ' -> ', '-', '250 ', '250-', '\\', '%s', '%', '́', '\U0001F600',
+SPECIAL = ['é', 'ü£', 'ж', '"', '""', ' ', '  ', ';', '=', 'Type=dir;', ' -> ', '-', '250 ', '250-', '\\', '%s', '%', '́', '\U0001F600',
            '\x85', ' ', "'", '*', '?', '[', ':', '~', '#', '\t', '\x7f', '\x01', 'size=3;', 'x', 'é', '1', '{}', ' ', '-rf', '-la x', '-a', '-l', '--', '-1']
 NAME = st.lists(st.one_of(st.sampled_from(SPECIAL),
                           st.text(alphabet=st.characters(blacklist_characters='/\x00\r\n', blacklist_categories=("Cs",)),
@@ -64,10 +65,24 @@ def trigger(name):
     return "+".join(t) or "other"
 
 
+ENCODINGS = ["utf-8", "utf-8", "latin-1", "cp1251", "koi8-r", "cp1252"]
+
+
+def encoding_for(name, name2, tape):
+    """Server and client configured with the same (documented) `encoding`; only codecs that can carry both names."""
+    enc = ENCODINGS[(len(tape) + len(name)) % len(ENCODINGS)]
+    try:
+        (name + name2).encode(enc)
+    except UnicodeEncodeError:
+        enc = "utf-8"
+    return enc
+
+
 async def _run(loop, case, tmp, out):
     name, name2, parent, backend, listonly, tape = case
     users = [aioftp.User(base_path=tmp)] if backend != "mem" else [aioftp.User()]
-    server = aioftp.Server(users, path_io_factory=harness.BACKENDS[backend])
+    enc = encoding_for(name, name2, tape)
+    server = aioftp.Server(users, path_io_factory=harness.BACKENDS[backend], encoding=enc)
     if listonly:
         server.commands_mapping.pop("mlsd")
         server.commands_mapping.pop("mlst")
@@ -76,7 +91,7 @@ async def _run(loop, case, tmp, out):
     def tree():
         return harness.mem_tree(server) if backend == "mem" else harness.fs_tree(tmp)
 
-    c = aioftp.Client(path_io_factory=aioftp.MemoryPathIO)
+    c = aioftp.Client(path_io_factory=aioftp.MemoryPathIO, encoding=enc)
     await c.connect(HOST, PORT)
     await c.login()
     P = pathlib.PurePosixPath
@@ -169,7 +184,7 @@ def check(ctx, case):
         nt = bool(set(name) & META) or any(ord(ch) > 127 for ch in name)
         ctx.count([name, name2, parent, backend, listonly], nt,
                   sample=dict(name=name, name2=name2, parent=parent, backend=backend, list_only_server=listonly, steps=len(steps)),
-                  classes=["be_" + backend, "listonly" if listonly else "mlsd", "trigger_" + trigger(name)]
+                  classes=["be_" + backend, "listonly" if listonly else "mlsd", "trigger_" + trigger(name), "encoding_" + encoding_for(name, name2, tape)]
                   + (["non_ascii"] if any(ord(ch) > 127 for ch in name) else []))
 
 
